@@ -113,7 +113,7 @@ theorem C15_capacity_history (hfresh : FreshSupply) (c : Cfg) (hi : c.index < 65
     (ops : List C01.Op) (hops : ∀ op ∈ ops, op.wf) (hK : ∀ op ∈ ops, capIs c K op) :
     ∀ t ∈ Check.trees c (C01.run ops), ∀ bk ∈ t.buckets, bk.2.length ≤ K := by
   apply C01.C01_history_induction hfresh c hi
-    (fun s => ∀ t ∈ Check.trees c s, ∀ bk ∈ t.buckets, bk.2.length ≤ K) (capIs c K) _ _ _ _ ops hops hK
+    (fun s => ∀ t ∈ Check.trees c s, ∀ bk ∈ t.buckets, bk.2.length ≤ K) (capIs c K) _ _ _ _ _ ops hops hK
   · intro t ht
     simp [Check.trees, Store.get] at ht
   · intro s s' hinv _ m hP
@@ -128,6 +128,8 @@ theorem C15_capacity_history (hfresh : FreshSupply) (c : Cfg) (hi : c.index < 65
     rw [← Check.trees_congr_index he, Check.trees_of_old old] at hP
     rw [← hcap] at hP ⊢
     exact b.capacity hP
+  · intro s c' m' s' _ _ _ _ _ _ hu _ t ht
+    simp [Check.trees, hu.1] at ht
 
 theorem C15_capacity_history_checker (hfresh : FreshSupply) (c : Cfg) (hi : c.index < 65536) (K : Nat)
     (ops : List C01.Op) (hops : ∀ op ∈ ops, op.wf) (hK : ∀ op ∈ ops, capIs c K op) :
